@@ -437,43 +437,153 @@ theorem forwarded_keys_not_reserved (c : FilterCfg) (cmd : Bytes) (args out : Li
   rw [h2 i hi] at this
   cases this
 
+/-! ### the bisync control namespace (plain links and both snapshot loops) -/
+
+/-- the namespace filter rejects exactly the keys under "redis-gunyu-bisync:" -/
+theorem nsFilter_iff (k : Bytes) : nsFilter.filterKey k = true ↔ bisyncNamespace <+: k := by
+  have h1 : nsFilter.prefBlack = insertPrefixes none [bisyncNamespace] := rfl
+  have h2 : nsFilter.prefWhite = none := rfl
+  rw [filterKey_eq, h1, h2]
+  simp only [Option.isSome_none, Bool.false_and, Bool.or_false]
+  rw [optMatch_prefixes]
+  unfold prefixHit
+  constructor
+  · rintro ⟨p, hp, _, hpre⟩
+    simp only [List.mem_singleton] at hp
+    rw [← hp]; exact hpre
+  · intro h
+    exact ⟨bisyncNamespace, by simp, by decide, h⟩
+
+/-- the three bookkeeping namespaces the tool documents (docs/bisync.md §4.1):
+    `redis-gunyu-checkpoint…`, `/redis-gunyu…`, `redis-gunyu-bisync:…` -/
+def Bookkeeping (k : Bytes) : Prop :=
+  Gen.checkpointKey <+: k ∨ Gen.namespacePrefixKey <+: k ∨ bisyncNamespace <+: k
+
+/-- On a plain link every key of the three bookkeeping namespaces is withheld,
+    under every configuration. -/
+theorem bookkeeping_never_forwarded_plain (c : FilterCfg) (k : Bytes) (h : Bookkeeping k) :
+    plainKeyRejected (buildOutput c) k = true := by
+  unfold plainKeyRejected
+  rcases h with h | h | h
+  · rw [(bookkeeping_never_forwarded c k (Or.inl h)).2]; rfl
+  · rw [(bookkeeping_never_forwarded c k (Or.inr h)).2]; rfl
+  · rw [(nsFilter_iff k).mpr h]; simp
+
+/-- every key constructor of pkg/redis/checkpoint/bisync.go (regenerated:
+    marker, commit index, latest, commit record, rdb record) builds a key of
+    the bisync namespace, for every checkpoint name, slot tag and sequence -/
+theorem bisync_keys_in_namespace (cp tag : Bytes) (seq : Nat) :
+    Bookkeeping (Gen.markerKey cp tag) ∧ Bookkeeping (Gen.commitIndexKey cp tag) ∧
+    Bookkeeping (Gen.latestKey cp tag) ∧ Bookkeeping (Gen.commitRecordKey cp tag seq) ∧
+    Bookkeeping (Gen.rdbRecordKey cp tag seq) := by
+  refine ⟨?_, ?_, ?_, ?_, ?_⟩ <;>
+  · right; right
+    simp only [Gen.markerKey, Gen.commitIndexKey, Gen.latestKey, Gen.commitRecordKey, Gen.rdbRecordKey,
+      bisyncNamespace, List.append_assoc]
+    exact List.prefix_append _ _
+
+/-- What a plain link forwards of a table-resolved command (`outFilter`, then
+    the namespace filter): the key positions of the result resolve, and no key
+    at them is rejected by either filter — in particular none lies in a
+    bookkeeping namespace. -/
+theorem plain_forwarded_keys_accepted (c : FilterCfg) (cmd : Bytes) (args out : List Bytes) (idx : List Nat)
+    (hidx : keyIndexes cmd args = some idx)
+    (h : plainFilterCmdKey (buildOutput c) cmd args = some out) :
+    ∃ idx', keyIndexes cmd out = some idx' ∧
+      ∀ i ∈ idx', plainKeyRejected (buildOutput c) (out.getD i []) = false ∧ ¬ Bookkeeping (out.getD i []) := by
+  unfold plainFilterCmdKey at h
+  cases h1 : (buildOutput c).filterCmdKey cmd args with
+  | none => rw [h1] at h; cases h
+  | some o1 =>
+    rw [h1] at h
+    simp only [Option.bind_some] at h
+    have hr : (buildOutput c).hasKeyRules = true := by
+      have : (buildOutput c).prefBlack.isSome = true := by
+        rw [out_prefBlack, isSome_insertPrefixes, isSome_insertPrefixes]
+        right; left; simp [reservedPrefixes]
+      simp [KeyFilter.hasKeyRules, this]
+    have hrn : nsFilter.hasKeyRules = true := by decide
+    obtain ⟨⟨idx1, hi1, hacc1, _⟩, _⟩ := forwarded_keys_accepted _ cmd args o1 idx hr hidx h1
+    obtain ⟨⟨idx2, hi2, hacc2, hkeys2⟩, _⟩ := forwarded_keys_accepted _ cmd o1 out idx1 hrn hi1 h
+    refine ⟨idx2, hi2, ?_⟩
+    intro i hi
+    have hmem : out.getD i [] ∈ idx2.map (fun i => out.getD i []) := List.mem_map.mpr ⟨i, hi, rfl⟩
+    rw [hkeys2] at hmem
+    obtain ⟨hm1, _⟩ := List.mem_filter.mp hmem
+    obtain ⟨j, hj, hjeq⟩ := List.mem_map.mp hm1
+    have hA : (buildOutput c).keyRejected (out.getD i []) = false := by rw [← hjeq]; exact hacc1 j hj
+    have hB : nsFilter.filterKey (out.getD i []) = false := by
+      have := hacc2 i hi
+      unfold KeyFilter.keyRejected at this
+      simp only [Bool.or_eq_false_iff] at this
+      exact this.1
+    have hrej : plainKeyRejected (buildOutput c) (out.getD i []) = false := by
+      unfold plainKeyRejected; rw [hA, hB]; rfl
+    refine ⟨hrej, ?_⟩
+    intro hbk
+    rw [bookkeeping_never_forwarded_plain c _ hbk] at hrej
+    cases hrej
+
+-- DEL a <latest record> b on a plain link: projected; SET <marker> v: withheld
+example : plainFilterCmdKey (buildOutput {}) wDel [[97], Gen.latestKey [99,112] [116], [98]] = some [[97], [98]] := by
+  decide +kernel
+example : plainFilterCmdKey (buildOutput {}) [115,101,116] [Gen.markerKey [99,112] [116], [118]] = none := by
+  decide +kernel
+example : Bookkeeping (Gen.commitRecordKey [99,112] [116] 7) := (bisync_keys_in_namespace [99,112] [116] 7).2.2.2.1
+
 /-! ### the snapshot path -/
 
-/-- A snapshot key of database `db` is replayed (rdbReplay, rdbReplayBisync)
-    exactly when the database is not listed, no black prefix hits and — if a
-    white list is configured — a white prefix hits, and the slot rule accepts
-    its cluster slot. -/
+/-- A snapshot key of database `db` is replayed by `rdbReplay` exactly when the
+    database is not listed, no black prefix hits and — if a white list is
+    configured — a white prefix hits, the slot rule accepts its cluster slot,
+    and it is not a bisync control key. -/
 theorem rdbKeep_iff (c : FilterCfg) (db : Int) (k : Bytes) :
     rdbKeep (buildOutput c) db k = true ↔
       ¬ (db ≠ -1 ∧ db ∈ c.dbBlack) ∧
       ¬ (prefixHit (reservedPrefixes ++ c.prefBlack) k ∨ (c.prefWhite ≠ [] ∧ ¬ prefixHit c.prefWhite k)) ∧
       ¬ (slotIn c.slotBlack (Slot.hashSlotSpec k) ∨
-          (c.slotWhite ≠ [] ∧ ¬ slotIn c.slotWhite (Slot.hashSlotSpec k))) := by
+          (c.slotWhite ≠ [] ∧ ¬ slotIn c.slotWhite (Slot.hashSlotSpec k))) ∧
+      ¬ bisyncNamespace <+: k := by
   unfold rdbKeep
-  rw [Bool.and_eq_true, Bool.not_eq_true', Bool.not_eq_true', Bool.or_eq_false_iff,
-    ← db_iff, ← filterKey_iff, ← filterSlot_iff]
-  simp
+  rw [Bool.and_eq_true, Bool.not_eq_true', Bool.not_eq_true', Bool.or_eq_false_iff, Bool.or_eq_false_iff,
+    ← db_iff, ← filterKey_iff, ← filterSlot_iff, ← nsFilter_iff]
+  simp only [Bool.not_eq_true, and_assoc]
+
+/-- the same for `rdbReplayBisync` (whose namespace test also names the
+    checkpoint prefix, already reserved) -/
+theorem rdbKeepBisync_iff (c : FilterCfg) (db : Int) (k : Bytes) :
+    rdbKeepBisync (buildOutput c) db k = rdbKeep (buildOutput c) db k := by
+  unfold rdbKeepBisync rdbKeep isBisyncNamespaceKey
+  cases hn : nsFilter.filterKey k
+  · have hnot : ¬ bisyncNamespace <+: k := fun h => by rw [(nsFilter_iff k).mpr h] at hn; cases hn
+    have h1 : bisyncNamespace.isPrefixOf k = false := by
+      cases hb : bisyncNamespace.isPrefixOf k
+      · rfl
+      · exact absurd (List.isPrefixOf_iff_prefix.mp hb) hnot
+    cases hc : Gen.checkpointKey.isPrefixOf k
+    · simp [h1]
+    · have hk := (bookkeeping_never_forwarded c k (Or.inl (List.isPrefixOf_iff_prefix.mp hc))).1
+      simp [hk]
+  · have hp : bisyncNamespace.isPrefixOf k = true := List.isPrefixOf_iff_prefix.mpr ((nsFilter_iff k).mp hn)
+    simp [hp]
+
+/-- no bookkeeping key found in a snapshot is replayed, under every configuration -/
+theorem snapshot_never_replays_bookkeeping (c : FilterCfg) (db : Int) (k : Bytes) (h : Bookkeeping k) :
+    rdbKeep (buildOutput c) db k = false ∧ rdbKeepBisync (buildOutput c) db k = false := by
+  have h1 : rdbKeep (buildOutput c) db k = false := by
+    have := bookkeeping_never_forwarded_plain c k h
+    unfold plainKeyRejected KeyFilter.keyRejected at this
+    unfold rdbKeep
+    cases hk : (buildOutput c).filterKey k <;> cases hs : (buildOutput c).filterSlot k <;>
+      cases hn : nsFilter.filterKey k <;> simp [hk, hs, hn] at this ⊢
+  exact ⟨h1, by rw [rdbKeepBisync_iff]; exact h1⟩
 
 example : rdbKeep (buildOutput { dbBlack := [2], prefBlack := [[120]] }) 1 [97] = true := by decide +kernel
 example : rdbKeep (buildOutput { dbBlack := [2], prefBlack := [[120]] }) 2 [97] = false := by decide +kernel
 example : rdbKeep (buildOutput { dbBlack := [2], prefBlack := [[120]] }) 1 [120, 97] = false := by decide +kernel
 example : rdbKeep (buildOutput {}) 0 (Gen.checkpointKey ++ [58]) = false := by decide +kernel
-
-/-! ### the configuration layer -/
-
-/-- `SyncConfig.fix` hands the configured filter to the output unchanged
-    (whenever it accepts the configuration at all) — in particular a cluster
-    target keeps the database blacklist. -/
-theorem configFix_preserves (cluster : Bool) (tdb : Int) (resume : Bool) (c c' : FilterCfg)
-    (h : configFix cluster tdb resume c = some c') : c' = c := by
-  unfold configFix at h
-  split at h
-  · cases h
-  · split at h
-    · cases h
-    · exact (Option.some.inj h).symm
-
-example : configFix true (-1) true { dbBlack := [3] } = some { dbBlack := [3] } := rfl
+example : rdbKeep (buildOutput {}) 0 (Gen.latestKey [99,112] [116]) = false := by decide +kernel
+example : rdbKeepBisync (buildOutput {}) 0 (Gen.latestKey [99,112] [116]) = false := by decide +kernel
 
 /-! ### the parser's use of the filter (stream level)
 
@@ -483,15 +593,16 @@ example : configFix true (-1) true { dbBlack := [3] } = some { dbBlack := [3] } 
 
 /-- An ordinary command (not PING / SELECT) outside a bypassed database is
     handed to the sender exactly when its name is not withheld, it is not the
-    sentinel hello, and the key rules let it through — with the arguments the
-    key rules produce, its own end offset and the current target database. -/
+    sentinel hello, and the key rules (`outFilter`, then the bisync namespace
+    filter) let it through — with the arguments the key rules produce, its own
+    end offset and the current target database. -/
 theorem parse_forward_iff (f : KeyFilter) (tdb : Int) (m : List (Int × Int)) (sdb : Int)
     (s : Sender.PState) (r : Sender.Raw) (i : Sender.Item)
     (hp : r.cmd ≠ Sender.bPing) (hs : r.cmd ≠ Sender.bSelect) (hb : s.bypass = false) :
     (∃ s', Sender.parseStep (pcfgOf f tdb m sdb) s r = (s', .emit i)) ↔
       f.filterCmd r.cmd = false ∧
       ¬ (r.cmd = Sender.bPublish ∧ (r.args.head?.map lower) = some Sender.bSentinelHello) ∧
-      ∃ out, f.filterCmdKey r.cmd r.args = some out ∧
+      ∃ out, plainFilterCmdKey f r.cmd r.args = some out ∧
         i = { cmd := r.cmd, args := out, offset := r.off, db := s.currentDB } := by
   unfold Sender.parseStep pcfgOf
   simp only [hp, hs, if_false]
@@ -503,7 +614,7 @@ theorem parse_forward_iff (f : KeyFilter) (tdb : Int) (m : List (Int × Int)) (s
     by_cases hsen : r.cmd = Sender.bPublish ∧ Option.map lower r.args.head? = some Sender.bSentinelHello
     · simp [hsen]
     · simp only [hsen, if_false, not_false_eq_true, true_and, hb, hct, Bool.false_eq_true, false_and]
-      cases hk : f.filterCmdKey r.cmd r.args with
+      cases hk : plainFilterCmdKey f r.cmd r.args with
       | none => simp
       | some out =>
         simp only [Option.some.injEq, exists_eq_left', Prod.mk.injEq, Sender.POut.emit.injEq]
@@ -533,6 +644,39 @@ theorem no_forward_in_listed_db (c : FilterCfg) (tdb : Int) (m : List (Int × In
   have hstep := parseStep_select_listed pc s a n off ha hf
   refine ⟨by rw [Sender.parseAll, hstep], ?_⟩
   exact parseAll_bypass pc { s with bypass := true } mid rfl hmid
+
+/-- The converse over a command STREAM: after a well-formed `SELECT n` of an
+    UNLISTED database and any commands but SELECT (`mid`), the parser is not in
+    bypass, so an ordinary command is handed to the sender exactly when the
+    name and key rules accept it (with `no_forward_in_listed_db`: "exactly"). -/
+theorem unlisted_db_forwards_exactly (c : FilterCfg) (tdb : Int) (m : List (Int × Int)) (sdb : Int)
+    (s : Sender.PState) (a : Bytes) (n : Int) (off : Int) (mid : List Sender.Raw)
+    (r : Sender.Raw) (i : Sender.Item)
+    (ha : Sender.atoi? a = some n) (hdb : ¬ (n ≠ -1 ∧ n ∈ c.dbBlack))
+    (hmid : ∀ p ∈ mid, p.cmd ≠ Sender.bSelect)
+    (hp : r.cmd ≠ Sender.bPing) (hs : r.cmd ≠ Sender.bSelect) :
+    let pc := pcfgOf (buildOutput c) tdb m sdb
+    let s2 := stateAfter pc s ({ cmd := Sender.bSelect, args := [a], off := off } :: mid)
+    s2.bypass = false ∧
+    ((∃ s', Sender.parseStep pc s2 r = (s', .emit i)) ↔
+      (buildOutput c).filterCmd r.cmd = false ∧
+      ¬ (r.cmd = Sender.bPublish ∧ (r.args.head?.map lower) = some Sender.bSentinelHello) ∧
+      ∃ out, plainFilterCmdKey (buildOutput c) r.cmd r.args = some out ∧
+        i = { cmd := r.cmd, args := out, offset := r.off, db := s2.currentDB }) := by
+  intro pc s2
+  have hf : pc.filterDb n = false := by
+    cases hfd : pc.filterDb n
+    · rfl
+    · exact absurd ((db_iff c n).mp hfd) hdb
+  have hb : s2.bypass = false := by
+    show (stateAfter pc s (_ :: mid)).bypass = false
+    unfold stateAfter
+    rw [List.foldl_cons]
+    have := stateAfter_keeps_bypass pc (Sender.parseStep pc s { cmd := Sender.bSelect, args := [a], off := off }).1 mid hmid
+    unfold stateAfter at this
+    rw [this]
+    exact parseStep_select_unlisted pc s a n off ha hf
+  exact ⟨hb, parse_forward_iff (buildOutput c) tdb m sdb s2 r i hp hs hb⟩
 
 -- db 1 listed: SET in db 1 withheld, the EXEC of the transaction opened in db 0 passes with
 -- the offset of the last command handed over (20), SET after SELECT 0 is forwarded again
